@@ -368,6 +368,45 @@ func C10(p *ir.Program, r *report.R) {
 		r.Check("K2", "trie.(*Trie).Prove/walks-until-key-exhausted", p.Pos(pr.Pos()), okLoop, "the node collection loop runs while len(key) > 0 && tn != nil")
 	}
 
+	// ---- B8: a pooled hasher is not touched after it went back to the pool --------------------------------
+	// SecureTrie.hashKey (and the node hasher) borrow a hasher from a sync.Pool; after
+	// returnHasherToPool(h) another goroutine may own it: reading h.sha.Sum afterwards returns that
+	// goroutine's digest and the value lands under the wrong path.
+	{
+		n := 0
+		for _, f := range p.Funcs {
+			if f.Pkg == nil || ir.RelPkg(f.Pkg.Pkg) != "libs/trie" || f.Blocks == nil || strings.HasSuffix(p.Pos(f.Pos()), "_test.go") {
+				continue
+			}
+			for _, rel := range ir.Calls(f, "trie.returnHasherToPool") {
+				call, ok := rel.(*ssa.Call)
+				if !ok {
+					continue // deferred: runs after everything else
+				}
+				n++
+				h := call.Call.Args[0]
+				uses := func(x ssa.Instruction) bool {
+					if x == ssa.Instruction(call) {
+						return false
+					}
+					for _, op := range x.Operands(nil) {
+						if *op == h {
+							return true
+						}
+					}
+					return false
+				}
+				found, hit, _ := ir.FindPath(ir.PathQuery{From: ir.At(call), Target: uses})
+				d := "no use of the hasher after returnHasherToPool"
+				if found {
+					d += " — but it is used at " + p.InstrPos(hit)
+				}
+				r.Check("K2", "trie/"+f.Name()+"/no-use-after-return-to-pool", p.InstrPos(call), !found, d)
+			}
+		}
+		r.Check("K2", "trie/no-use-after-return-to-pool/sites", "-", n >= 1, fmt.Sprintf("%d explicit returns to the pool", n))
+	}
+
 	// ---- B7: a node reaches the disk after its children -------------------------------------------
 	// Database.commit flushes the batch whenever it is full, so a large commit is written in several
 	// steps. Children first: whatever prefix of the steps reached the disk, every node on it is
